@@ -75,7 +75,9 @@ static void sern_lines(const cbor_item_t* item, size_t size, const unsigned char
 static void copy_line(cbor_item_t* src, const unsigned char* ref, size_t size) {
   static const void* a1[1 << 14];
   static const void* a2[1 << 14];
+  long rq0 = va.requests;
   cbor_item_t* cp = cbor_copy(src);
+  long copy_requests = va.requests - rq0;
   fputs("{\"e\":\"copy\"", vh_out);
   vh_kbool("ok", cp != NULL);
   if (!cp) {
@@ -127,6 +129,16 @@ static void copy_line(cbor_item_t* src, const unsigned char* ref, size_t size) {
       cbor_decref(&cp3);
     }
   }
+  /* a copy during which one allocation request is refused: whatever it returns, the source is as it was */
+  va_fault_mode = VA_ONLY;
+  va_fault_k = va.requests + (long)vh_randn((uint64_t)copy_requests + 1);
+  long refused_before = va.refused;
+  cbor_item_t* cpf = cbor_copy(src);
+  va_fault_mode = VA_NONE;
+  vh_kbool("fault_hit", va.refused > refused_before);
+  vh_kbool("fault_copy_null", cpf == NULL);
+  if (cpf) cbor_decref(&cpf);
+  vt_ktree("src_after_fault", src);
   (void)ref; (void)size;
   fputs("}\n", vh_out);
 }
